@@ -22,9 +22,9 @@ for r in sorted(res, key=lambda r: r["mutant"]):
     else:
         why = "patch does not apply" if r.get("exit") == -2 else "missed"
         rows.append(f"| {r['mutant']} | {files} | {what} | **{why}** | – |")
-head = (f"{len(res)} changes written by independent sub-agents (seven rounds; each agent saw only the property record and a scratch\n"
+head = (f"{len(res)} changes written by independent sub-agents (eight rounds; each agent saw only the property record and a scratch\n"
         "worktree of /repo, from the second round on without the contract files and with the list of functions already used;\n"
-        "m1-m2 first round, m3-m4 second, m5-m6 third, m7-m8 fourth, m9-m10 fifth, m11-m12 sixth, m13-m14 seventh),\n"
+        "m1-m2 first round, m3-m4 second, m5-m6 third, m7-m8 fourth, m9-m10 fifth, m11-m12 sixth, m13-m14 seventh, m15 eighth - one change per property, written under a 12-minute limit),\n"
         "each confirmed by me (builds, all 235 tests pass, its demo test fails with the change and passes without).\n"
         f"`bin/govc seeded` applies each to a scratch copy and runs the owning property's quick check: **{caught} of {len(res)} caught**.\n"
         "\"model\": a solver produced a counterexample for the named obligation; \"no proof\": the obligation that discharges on the\n"
